@@ -17,6 +17,15 @@ CLAIMED = {
         note="Trusted: TLC/SANY, the TLA+ SM3 text (two standard vectors), the verif-tag projection sm3.VerifState. "
              "Lengths are bounded (quick 0..200 + 10 longer, thorough 0..1100).",
         ref="6 C04"),
+    "C05": dict(
+        technique="TLA+ SM4 definition (algebraic S-box, derived CK) evaluated by TLC on recorded executions of every block path; small exhaustive Feistel-structure model",
+        text="TLC recomputes, with the pure TLA+ SM4 (standard example and algebraic-S-box = table identity checked on "
+             "every run), every block recorded from the real code: public Encrypt/Decrypt with the accelerated path on and "
+             "off, in place and not, after the key slice was overwritten; both key schedules word for word; portable 1/2-block "
+             "and vector 1/2/4/8/16-block kernels with distinct blocks per lane and one-hot lanes; key-length rule 0..40. "
+             "TLC also checks exhaustively (2-bit words, all round functions) that the reversed key order inverts the network.",
+        note="Trusted: TLC/SANY, SM4.tla (standard example). Keys/blocks are sampled. arm64 kernels cannot run here and are not covered.",
+        ref="6 C05"),
     "C20": dict(
         technique="TLA+ definitions (Util) + algorithm-as-coded model (CmpNaf) checked exhaustively by TLC at small size; TLC trace validation of recorded calls",
         text="TLC checks exhaustively that the borrow-chain comparison and the signed-window recoding loop as coded "
